@@ -136,7 +136,8 @@ def run(tier):
     # add-on part (builder-threads): the REAL private #[global_allocator] GlobalDlMalloc in a no-libc
     # probe (features executable + threaded + global-allocator), 1/2/4 threads, judged with this
     # property's invariants of AllocAbs; runs concurrently with the drivers below
-    fut_ga = pool.submit(galloc_part.run_part, chk, tier) if galloc_part else None
+    from checks.c04 import _PartProxy      # wall-clock verdicts of the part under overload become notes
+    fut_ga = pool.submit(galloc_part.run_part, _PartProxy(chk), tier) if galloc_part else None
 
     # ---- TLC-generated histories
     depth = 4 if quick else 5
